@@ -200,6 +200,17 @@ PROPS = {
         "assumptions": COMMON_ASSUMPTIONS,
         "explanation": "totality/invariant theorems + hostile-input correspondence",
     },
+    "C17": {
+        "level": "proof",
+        "lean_modules": ["AnyTLS.Props.C17"],
+        "groups": [{"group": "http", "quick_cases": 4000, "thorough_cases": 60000}],
+        "rule": "http cases: wf = a structured well-formed request (method x target form {CONNECT, absolute http/https, origin + Host} x host spelling {names, IPv4, bracketed IPv6 incl. '[fe80::1:443]'} x port {absent, 80, 443, 1, 8080, 65535, random} x Host header name in 5 letter cases with optional whitespace x 0..6 other header lines incl. look-alikes 'Hostile:', 'X-Host:', non-ASCII values, folded lines x version x body) with the expected target and expected forwarded bytes computed by construction; parse = malformed blocks (byte flips, deletions, insertions of delimiters, truncations, token soups, odd ports/authorities, odd request lines, random bytes); read = read_http_header over real loopback TCP with header blocks of every size around the 64 KiB limit, with and without a body in the same read, without terminator; conn = the whole front-end against a real server and IPv4/IPv6 origins (CONNECT / absolute / origin form, target up / down, early and later bytes); keepalive = two requests for two origins on one connection; "
+                "fixed: every host spelling x port class (6 requests each), the D15 regression witnesses, sizes limit-1024..limit+4 (every size limit-1030..limit+8 in the thorough tier) x 4 body sizes, 14 front-end scenarios; non-trivial = every case; distinct by SHA-1 of the op line",
+        "level_text": "kernel-checked theorems, unbounded in request size, header count and chunking: the header block ends at the first terminator (header_end_first); acceptance of a block, the block itself and the bytes after it are independent of how the stream is split into reads, the limit counts header bytes only (header_read_chunk_independent); for EVERY well-formed request (specification Model/HttpSpec.lean: any method token, CONNECT authority / absolute http(s) URI with path, query or nothing / origin form with a Host line in any letter case; names, IPv4, bracketed IPv6; any port) the parser derives exactly the named host and port with the 80/443 defaults (tunnel_to_named_authority) and the rewritten request is the same method, origin-form target, version and header lines in order with only the Host line normalised (origin_receives_request); for every accepted request, well-formed or not, the tunnel is opened first, then 200 or the rewritten request, then exactly the bytes after the header block, each once and in order (rest_forwarded_once); no 200 and nothing sent when the tunnel fails (no_200_without_tunnel); all of it end to end from the UTF-8 bytes on the socket (connection_wellformed, using a proved UTF-8 encode/decode round-trip). 'Every request on a connection reaches its own authority' is FALSE of the code for a second request on a kept-alive connection: full statement each_request_to_its_authority kept, refutation kernel-checked, replayed end to end, listed as a known finding. Tied to the code by the http differential run",
+        "level_note": "trusted: Lean kernel, extract.py (MAX_HEADER_SIZE), harness+driver glue; scheme names are matched in lower case only ('HTTP://' is treated as origin form by the code and by the model; the specification spells schemes in lower case); 'normalised Host' means host (bracketed if IPv6) plus the port unless it is 80 or 443, as the code defines it; the relay loops after the header are covered by the e2e conn cases and by C08/C06",
+        "assumptions": COMMON_ASSUMPTIONS,
+        "explanation": "HTTP proxy model theorems + http correspondence + e2e",
+    },
     "C18": {
         "level": "proof",
         "lean_modules": ["AnyTLS.Props.C18"],
